@@ -229,6 +229,12 @@ func cmdReplay(args []string) int {
 		fmt.Fprintln(os.Stderr, err)
 		return 2
 	}
+	if hs := findSpec(&rec); hs != nil && hs.spec.Gen == "builders" {
+		if _, _, err := generateBuilderHarness(); err != nil {
+			fmt.Fprintln(os.Stderr, err)
+			return 2
+		}
+	}
 	kind, ok, note := replayNative(&rec)
 	fmt.Printf("replay kind=%s reproduced=%v: %s\n", kind, ok, note)
 	if ok {
